@@ -85,7 +85,34 @@ class Rig:
         is an exit); returns the record string."""
         self.evs = []
         self.peak = 0           # in-flight only grows at entries: max over entries and the end
-        k, n = op[0], int(op[1:])
+        k = op[0]
+        if k in 'yz':
+            # composite steps: two things within ONE loop iteration, no running to idle in between
+            a, b = op[1:].split(':')
+            if k == 'y':
+                # holder a leaves; right after its __aexit__ has run - before any task it woke has
+                # run again - the task of waiter b is cancelled (a completion and the processing
+                # timeout of a queued request falling into the same iteration)
+                i, j = int(a), int(b)
+                if i not in self.hold:
+                    self.evs.append('B')
+                else:
+                    self.gate[i].set_result(None)
+                    if j in self.waiting:
+                        self.loop.call_soon(self.task[j].cancel)
+                    else:
+                        self.evs.append('B')
+            else:
+                # set_target(a) and the exit of holder b back to back
+                self.c.set_target(int(a))
+                if int(b) in self.hold:
+                    self.gate[int(b)].set_result(None)
+                else:
+                    self.evs.append('B')
+            self.env.idle()
+            self.peak = max(self.peak, len(self.hold))
+            return fmt_record(self.evs, self.hold, self.waiting, self.c.max_concurrent)
+        n = int(op[1:])
         if k == 'e':
             self.gate[n] = self.loop.create_future()
             self.waiting.append(n)
@@ -133,8 +160,9 @@ class Oracle:
             self.key, self.why = key, why
 
     def op(self, op, evs, holders, waiting, peak, target_seen):
-        k, n = op[0], int(op[1:])
-        if k == 't':
+        k = op[0]
+        n = int(op[1:].split(':')[0])
+        if k in 'tz':
             self.limit = n
             self.maxlimit = max(self.maxlimit, n)
         for e in evs:
@@ -191,7 +219,15 @@ def run_limiter_case(env, init, ops, tail=True):
     nid = [max([int(o[1:]) for o in ops if o[0] == 'e'], default=-1) + 1]
 
     def do(op):
-        is_exit = op[0] in 'xk' and int(op[1:]) in rig.hold
+        if op[0] == 'z':
+            # the new limit is in force before the holder leaves
+            n = int(op[1:].split(':')[0])
+            orc.limit, orc.maxlimit = n, max(orc.maxlimit, n)
+            is_exit = int(op[1:].split(':')[1]) in rig.hold
+        elif op[0] == 'y':
+            is_exit = int(op[1:].split(':')[0]) in rig.hold
+        else:
+            is_exit = op[0] in 'xk' and int(op[1:]) in rig.hold
         if is_exit:
             orc.pre_exit()
         rec = rig.act(op)
@@ -233,6 +269,12 @@ def applicable(state, nid):
         ops.append(f'c{waiting[0]}')
         if len(waiting) > 1:
             ops.append(f'c{waiting[-1]}')
+    if holders and waiting:
+        # composite: a holder leaves and a waiter - the one that is handed the permit, or the last
+        # one in the queue - is cancelled within the same loop iteration
+        ops.append(f'y{holders[0]}:{waiting[0]}')
+        if len(waiting) > 1:
+            ops.append(f'y{holders[0]}:{waiting[-1]}')
     ops += [f't{n}' for n in (0, 1, 2, 3) if n != target]
     return ops
 
@@ -292,8 +334,8 @@ def check_results(ctx, res, results, scope):
 def _has_reduction(ops):
     cur = None
     for o in ops:
-        if o[0] == 't':
-            n = int(o[1:])
+        if o[0] in 'tz':
+            n = int(o[1:].split(':')[0])
             if cur is not None and n < cur:
                 return True
             cur = n
@@ -342,9 +384,14 @@ def random_limiter_case(rng, allow_nonpos):
         elif r < 0.65:
             i = rng.choice(live)
             ops.append(f'x{i}' if rng.random() < 0.75 else f'k{i}')
-        elif r < 0.8:
+        elif r < 0.77:
             i = rng.choice(live)
             ops.append(f'c{i}')
+        elif r < 0.84:
+            # composites (no running to idle in between): exit + cancel of a waiter, target + exit
+            i, j = rng.choice(live), rng.choice(live)
+            lo = -1 if allow_nonpos else 1
+            ops.append(f'y{i}:{j}' if rng.random() < 0.7 else f'z{rng.randint(lo, 5)}:{i}')
         else:
             lo = -1 if allow_nonpos else 1
             ops.append(f't{rng.randint(lo, 5)}')
@@ -759,6 +806,96 @@ def evaluate_throttle_order(ctx, res, cases):
             res.nontrivial(json.dumps(c, sort_keys=True))
 
 
+def run_coincide_case(env, case):
+    """A handler's completion and the processing timeout of a request queued behind it fall into
+    ONE loop iteration (the loop was held up by a slow synchronous step just as the handler was
+    released): the queued request's task is cancelled after the leaving handler has handed it the
+    slot but before it has run again.  The slot must not be lost: a burst sent to the then idle
+    session has to find all `limit` slots and be served.  Oracle only (below the granularity of the
+    session scripts; the limiter-level composite step `y` is the modelled counterpart)."""
+    L, kind = case['init'], case.get('kind', 'rpc')
+    attrs = dict(processing_timeout=case['ptimeout'], error_base_cost=0.0, bw_cost_per_byte=0.0)
+    rig = SessRig(env, L, attrs, kind=kind)
+    key = why = None
+
+    def fail(kk, w):
+        nonlocal key, why
+        if why is None:
+            key, why = kk, w
+
+    loop = env.loop
+    q = case['queued']
+    rig.feed([(i, True) for i in range(L + q)], False)
+    env.idle()
+    if len(rig.hold) != L:
+        env.close_loop()
+        env.new_loop()
+        return key, why, dict(skipped=1, hit=0)
+    eps = 0.015625
+
+    def release_and_stall():
+        # the handlers are released, and the same callback holds the loop up past the deadline of
+        # the queued requests: their timeouts are processed right after the handlers' exits
+        for i in list(rig.hold)[:case['leave']]:
+            rig.gate[i].set_result(None)
+        loop._vtime += 2 * eps
+    loop.call_at(case['ptimeout'] - eps, release_and_stall)
+    env.advance(case['ptimeout'] + 1)
+    for i in list(rig.hold):
+        if not rig.gate[i].done():
+            rig.gate[i].set_result(None)
+    env.advance(case['ptimeout'] + 1)
+    hit = len([i for i in range(L, L + q) if i not in rig.started_at])
+    base, m = 1000, L + 2
+    rig.feed([(base + j, True) for j in range(m)], False)
+    env.idle()
+    if len(rig.hold) > L:
+        fail('c13:exceeds-max-limit', f'{len(rig.hold)} handlers in flight, limit {L}')
+    if len(rig.hold) < min(m, L):
+        fail('c13:permit-lost',
+             f'{case["leave"]} handler(s) finished in the same loop iteration in which the processing timeout '
+             f'({case["ptimeout"]}s) of the {q} request(s) queued behind them fired; a burst of {m} requests to the '
+             f'then idle session (limit {L}) has only {len(rig.hold)} handlers running, '
+             f'{len([w for w in rig.waiting if w >= base])} waiting')
+    guard = 0
+    while rig.hold and guard < 100:
+        rig.gate[rig.hold[0]].set_result(None)
+        env.idle()
+        guard += 1
+    left = [w for w in rig.waiting if w >= base]
+    if left:
+        fail('c13:not-served', f'requests {left} of the later burst never handled although every handler finished')
+    env.close_loop()
+    env.new_loop()
+    return key, why, dict(skipped=0, hit=hit)
+
+
+def coincide_cases(rng, count):
+    out = []
+    for c in range(count):
+        L = [1, 2, 3][c % 3]
+        out.append(dict(init=L, queued=rng.randint(1, 3), leave=rng.randint(1, L), ptimeout=rng.choice([0.5, 2.0, 30.0]),
+                        kind='msg' if c % 4 == 3 else 'rpc'))
+    return out
+
+
+def _co_batch(cases):
+    return [run_coincide_case(_env, c) for c in cases]
+
+
+def evaluate_coincide(ctx, res, cases):
+    results = _pmap(ctx, _co_batch, cases, chunk=20)
+    for case, (key, why, stats) in zip(cases, results):
+        c = dict(case, level='coincide')
+        if why:
+            res.violation(key, c, why)
+        res['evaluations'] += 1
+        res.count('coincide_cases')
+        res.count('coincide_queued_requests_timed_out_in_the_iteration_of_the_exit', stats['hit'])
+        if stats['hit']:
+            res.nontrivial(json.dumps(c, sort_keys=True))
+
+
 def _task_no(t):
     name = t.get_name()
     return int(name.rsplit('-', 1)[1]) if '-' in name and name.rsplit('-', 1)[1].isdigit() else 0
@@ -1010,6 +1147,8 @@ def run(ctx):
     evaluate_throttle_order(ctx, res, throttle_order_cases(rng, nto))
     ntd = 56
     evaluate_teardown(ctx, res, teardown_cases(rng, ntd))
+    nco = 24
+    evaluate_coincide(ctx, res, coincide_cases(rng, nco))
     nsess = 300
     sres = _pmap(ctx, _sess_batch, [random_session_script(rng) for _ in range(nsess)], chunk=100)
     check_session_results(ctx, res, sres)
@@ -1041,6 +1180,7 @@ def run(ctx):
     res['scopes']['session_timeout_while_throttled'] = ntt
     res['scopes']['session_arrival_order_while_throttled'] = nto
     res['scopes']['session_handlers_ended_from_outside'] = ntd
+    res['scopes']['session_exit_and_queue_timeout_in_one_iteration'] = nco
     for init, script, _kd, ops, recs, _k, _w, _c in sres[:2]:
         res.sample({'level': 'session', 'case': fmt_case(init, ops)[:300],
                     'impl': ' | '.join(r for r in recs if r)[:400]})
@@ -1054,6 +1194,8 @@ def replay(ctx, case):
     _init(ctx.repo)
     if case.get('level') == 'throttle-timeout':
         evaluate_throttle_timeout(ctx, res, [{k: v for k, v in case.items() if k != 'level'}])
+    elif case.get('level') == 'coincide':
+        evaluate_coincide(ctx, res, [{k: v for k, v in case.items() if k != 'level'}])
     elif case.get('level') == 'teardown':
         c = {k: v for k, v in case.items() if k != 'level'}
         c['bursts'] = [tuple(b) for b in c['bursts']]
